@@ -15,8 +15,12 @@ func H_c19() {
 	SetRedactNamespaces(false) // no namespace / field-name pseudonymisation (outside the claim)
 	verifAssumeSimpleNames("L0")
 	verifAssume(!verifSpecEmail(verifString("replacement")))
-	for _, s := range verifHoles("L0", "S") {
-		verifAssume(!strings.HasPrefix(s, "$"))
+	// bound: a replacement text that itself looks like a field-path reference / operator is outside this check
+	verifAssume(!strings.HasPrefix(verifString("replacement"), "$"))
+	for _, cl := range verifSecretClasses {
+		for _, s := range verifHoles("L0", cl) {
+			verifAssume(!strings.HasPrefix(s, "$"))
+		}
 	}
 	t1, ok := verifRedactLine(verifLine("L0"))
 	verifAssert(ok, "first-pass-emitted")
